@@ -67,11 +67,9 @@ LABEL_POOL = ['a', 'ab', '32=a', '8=', '253=a', '32=ab', '32=']
 DEPTH = 4
 REPRS = ['uri', 'uri-pct', 'uri-pctl', 'strlist', 'byteslist', 'balist', 'mvlist', 'rwmvlist', 'mixed', 'wire', 'wire-ba', 'wire-mv',
          'wire-rwmv', 'tuple', 'iter']
-# read-only views of buffers the caller goes on writing to: kept out of the stream - on the unchanged library the trie
-# keeps such views as keys (finding, candidate_fixes/C04-readonly-view-of-mutable-buffer); VERIF_C04_ROMV=1 adds them
-import os
-if os.environ.get('VERIF_C04_ROMV'):
-    REPRS = REPRS + ['romvlist', 'wire-romv']
+# 'romvlist' / 'wire-romv': read-only views of buffers the caller goes on writing to (memoryview(bytearray).toreadonly()).
+# The unchanged library kept such views as trie keys (fixed in /repo, see known_findings.txt); they are part of the stream.
+REPRS = REPRS + ['romvlist', 'wire-romv']
 RX_FORMS = ['ba', 'mv', 'rwmv']      # buffer class in which the face hands an Interest to the application (absent = bytes)
 
 
